@@ -1244,6 +1244,9 @@ ROUTING_FORMS = [
     ("exact_two_seg", [("table_name", "{inst=projects/*/instances/*}")]),
     ("literal_suffix", [("table_name", "{tbl=projects/*/tables/*}/rows")]),
     ("whole_dstar_tail", [("name", "{database=projects/*/databases/*}/documents/*/**")]),
+    # the bare form {key} is short for {key=*}
+    ("bare_key_mid", [("table_name", "projects/*/{instance_id}/**")]),
+    ("bare_key_whole", [("app_profile_id", "{routing_id}")]),
 ]
 ROUTING_FORMS_FIXED = [("empty_annotation", [])]
 IMPLICIT_FORMS = [
